@@ -528,6 +528,8 @@ def _check_term(term, out):
 
 
 def _same_obs(a, b):
+    if a[0].startswith("raises") and b[0].startswith("raises"):
+        return True  # both applications fail (which ill-typed member fails first depends on the order: not constrained)
     if a[0] != b[0] or set(a[1]) != set(b[1]):
         return False
     for k in a[1]:
